@@ -25,7 +25,7 @@ INFO = dict(
            'histories longer than one fault per connection'],
   stubs=['virtual loop (3.1), time.time (3.2)', 'fake TCP layer + scripted peers (3.9, 3.10): connect ok/refused after a delay, peer close, '
          'replies delivered at peer-chosen virtual times', 'math.ceil/float/int in timer_queue, math.exp/float in varz (3.8)',
-         'random in heap/aperture/base/thriftmux.sink (3.3; ping and jitter intervals stay symbolic)', 'aperture LOW_RESOLUTION_* -> fresh queue on the virtual clock',
+         'random in heap/base (3.3); ping interval fixed at 35 s and jitter interval at 180 s (midpoints of their ranges)', 'aperture LOW_RESOLUTION_* -> fresh queue on the virtual clock',
          'ThriftMux Deadline context bytes -> zeros (symbolic clock never reaches struct; C13 covers the bytes)',
          'scales.dispatch.AsyncResult -> counting subclass'],
   assumptions=['A1 zero-time code', 'A2 exact reals', 'A3 tie order', 'A4 socket/peer contracts', 'A5 accelerated Thrift codec == pure-Python codec'],
